@@ -332,8 +332,29 @@ def random_expr(ctx):
             terms.append((rng.choice([1, -1]) * sympy.Rational(1, 2), [("asym", "Za", ((occs0[0], ""), (occs0[1], "")), ((virs0[0], ""), (virs0[1], "")), 0)]))
         return layout, terms
     for _ in range(nterms):
+        if len(names) <= 2 and rng.random() < 0.2:
+            # dense small term: 3-4 two-index tensors over 2-3 contracted indices (an index on three or four objects, groups of
+            # objects that share an index with objects outside the group) + one carrier per target index
+            for _try in range(10):
+                cpool = rng.sample(occ_c + virt_c, rng.randint(2, 3))
+                objs = [("nonsym", rng.choice(["A", "Za2"]), tuple((c, "") for c in rng.sample(cpool, 2)), (), 0)
+                        for _ in range(rng.randint(3, 4))]
+                objs += [("nonsym", "A", ((n, ""), (rng.choice(cpool), "")), (), 0) for n in names]
+                cnt = {c: sum(1 for o in objs for i in o[2] if i[0] == c) for c in cpool}
+                if all(v >= 2 for v in cnt.values()):
+                    break
+            else:
+                continue
+            objs = [o if o[1] != "Za2" else ("nonsym", "A", o[2], (), 0) for o in objs]
+            terms.append((rng.choice([1, -1, 2, sympy.Rational(1, 2)]), objs))
+            continue
         contr = rng.sample(occ_c, rng.randint(0, 2)) + rng.sample(virt_c, rng.randint(0, 2))
+        # a contracted index mostly sits on two objects; sometimes on three or four (hyper-contraction: it may only be
+        # summed in the step that sees all of its occurrences)
+        # (at most one such index, small terms only: the optimiser enumerates all groupings)
         slots = [(n, "") for n in names] + [(c, "") for c in contr] * 2
+        if contr and len(slots) <= 7 and rng.random() < 0.35:
+            slots += [(rng.choice(contr), "")] * rng.choice([1, 1, 2])
         rng.shuffle(slots)
         objs = []
         while slots:
